@@ -166,6 +166,23 @@ func (info *Info) Encode() []byte {
 	scriptList := info.ScriptList.encode()
 	featureList := info.FeatureList.encode()
 	lookupList := info.LookupList.encode()
+	hasContent := len(info.ScriptList) > 0 || len(info.FeatureList) > 0 || len(info.LookupList) > 0
+	if hasContent || scriptList != nil && lookupList != nil {
+		// The reader treats a table without script list or lookup list as
+		// empty, and rejects a table where only the feature list is
+		// missing.  Write missing lists as empty lists, so that the
+		// contents of the others are not lost.
+		empty := []byte{0, 0}
+		if scriptList == nil {
+			scriptList = empty
+		}
+		if featureList == nil {
+			featureList = empty
+		}
+		if lookupList == nil {
+			lookupList = empty
+		}
+	}
 
 	total := 10
 	var scriptListOffset int
